@@ -29,7 +29,9 @@ THEOREMS = ['C10_rot_group', 'C10_rot_steps', 'C10_rot_inverse', 'C10_mir_involu
             'C10_primeq_mirrored_state_tendency', 'C10_primeq_humidity_mirror',
             'C10_get_cos_lat_vector_rot', 'C10_primeq_columns_of_rotated_state', 'C10_primeq_tendency_rot_equivariant',
             'C10_primeq_rotated_state_tendency', 'C10_primeq_humidity_rot', 'C10_implicit_terms_equivariant',
-            'C10_implicit_inverse_equivariant', 'C10_example']
+            'C10_implicit_inverse_equivariant', 'C10_example',
+            'C10_sw_nodal_equivariant', 'C10_sw_tendency_mirror_equivariant', 'C10_sw_explicit_terms_mirror_equivariant',
+            'C10_sw_tendency_rot_equivariant', 'C10_sw_explicit_terms_rot_equivariant', 'C10_sw_example']
 LEVEL = 'proof'
 LEVEL_TEXT = ('machine-checked theorems (Coq), for every field and all sizes: the rotation tables form a group acting on '
               'modal arrays (bijective when c^2+s^2=1), the mirror is an involution commuting with rotations; synthesis and '
@@ -47,13 +49,20 @@ LEVEL_TEXT = ('machine-checked theorems (Coq), for every field and all sizes: th
               '(vorticity as pseudo-scalar), with the concrete transforms and spectral operators under H_rot_table, '
               'H_p_pairs, H_rot_unit, paired recurrence weights, H_parity and H_nodes_sym; the implicit terms and the '
               'implicit inverse (column operators depending on l only) commute with both actions. '
-              'The table hypotheses are re-checked numerically on every explored grid; shallow water and Held-Suarez '
+              'ShallowWaterEquations.explicit_terms is modelled too (Model/ShallowWater.v: nodal algebra of one node and all '
+              'layers, density ratios, orography, sec2_lat / Coriolis from sin(lat), assembly with the concrete transforms and '
+              'spectral operators with their default clip=True) and proved mirror- and rotation-equivariant end to end on modal '
+              'states (any number of layers, any densities, both layouts); that model is run against the implementation '
+              '(arguments of to_modal recorded, whole output). '
+              'The table hypotheses are re-checked numerically on every explored grid; Held-Suarez '
               'explicit terms (no Coq model) and whole steps of the concrete operators are decided by the '
               'equivariance oracles on the implementation (exploration), for every grid-step rotation and the mirror.')
 LEVEL_NOTE = ('theorems are about the Gallina models (Model/Symmetry.v actions, Model/SHT.v transforms, Model/Deriv.v '
               'operators, Model/Invariants.v step terms, Model/PrimEq.v nodal column algebra - the latter tied to the code by '
               'properties C04 / C03); rotation and mirror equivariance of the assembled explicit primitive-equation tendencies '
-              'and of the implicit terms / inverse are proved; shallow water and Held-Suarez explicit terms are explored (oracles)')
+              'and of the implicit terms / inverse are proved; the shallow-water explicit terms are modelled (Model/ShallowWater.v, tied to '
+              'the code by correspondence of the nodal stage and of the whole output) and proved equivariant; Held-Suarez explicit '
+              'terms are explored (oracles)')
 TECHNIQUE = 'Coq proof of equivariance of every building block and of the integrator term language; table obligations; equivariance oracles on the implementation'
 
 TOL = 1e-11
@@ -233,10 +242,29 @@ GRIDS_THOROUGH = GRIDS_QUICK + [
 DYN_GRID = dict(M=4, L=5, I=13, J=7, spacing='gauss', impl='real', offset=0.0)
 
 
+SW_MODEL_QUICK = [
+    dict(M=3, L=4, I=8, J=5, spacing='gauss', impl='real', layers=1, dens=[1.0], orog=False, omega=1.0),
+    dict(M=3, L=4, I=8, J=4, spacing='gauss', impl='real', layers=2, dens=[1.0, 1.25], orog=True, omega=1.0),
+    dict(M=3, L=4, I=8, J=4, spacing='gauss', impl='fast', layers=3, dens=[1.0, 1.3125, 2.125], orog=True, omega=0.75, radius=2.5),
+    # densities that are NOT non-decreasing: both branches of np.minimum(., 1) below and above the diagonal
+    dict(M=3, L=5, I=7, J=6, spacing='equiangular', impl='real', layers=3, dens=[1.5, 1.0, 1.25], orog=True, omega=0.5, offset=0.25),
+]
+SW_MODEL_THOROUGH = SW_MODEL_QUICK + [
+    dict(M=4, L=5, I=10, J=6, spacing='gauss', impl='fast', layers=3, dens=[1.0, 1.0, 1.75], orog=True, omega=2.0, radius=0.5),
+    dict(M=4, L=6, I=9, J=7, spacing='gauss', impl='real', layers=2, dens=[2.0, 3.0], orog=False, omega=1.0),
+    dict(M=2, L=3, I=6, J=4, spacing='equiangular', impl='fast', layers=4, dens=[1.0, 1.125, 1.25, 4.0], orog=True, omega=1.0, offset=-0.5),
+]
+
+
 def generate(ctx):
     rng = ctx.rng
     quick = ctx.tier == 'quick'
     grids = GRIDS_QUICK if quick else GRIDS_THOROUGH
+    for n, cfg in enumerate(SW_MODEL_QUICK if quick else SW_MODEL_THOROUGH):
+        ctx.count('sw_model:%s/%d layers' % (cfg['impl'], cfg['layers']))
+        yield 'sw_model', dict(cfg, seed=int(np.random.Generator(np.random.PCG64([ctx.seed, 1010, n])).integers(0, 2 ** 31)))
+    if os.environ.get('C10_ONLY') == 'sw_model':          # (builder's switch for quick self-tests; never set by ./check)
+        return
     for g in grids:
         ctx.count('grid:%s/%s' % (g['impl'], g['spacing']))
         yield 'tables', dict(g)
@@ -835,4 +863,81 @@ def r_radius(ctx, a):
            [T.modal(z1[0], pseudo=True), T.modal(z1[1])])
 
 
-RUNNERS = {'radius': r_radius, 'diag': r_diag, 'tables': r_tables, 'actions': r_actions, 'sht': r_sht, 'ops': r_ops, 'dynamics': r_dynamics}
+# ---------------------------------------------------------------------------
+# shallow water: the Coq model of ShallowWaterEquations.explicit_terms (Model/ShallowWater.v) against the implementation
+# ---------------------------------------------------------------------------
+def r_sw_model(ctx, a):
+    from unittest import mock
+    m = dyn.mods(); sh = m['sh']; sw = m['sw']; scales = m['scales']
+    rng = np.random.Generator(np.random.PCG64(a['seed']))
+    g = _grid(a); N = int(a['layers'])
+    fast, wav, iscos, partner = layout(g)
+    R, L = g.modal_shape; I, J = g.nodal_shape
+    if (I, J) != (g.longitude_nodes, g.latitude_nodes) or tuple(g.modal_padding) != (0, 0):
+        ctx.count('sw_model:skipped padded layout'); return
+    c = dyn.layer_coords(g, N); gc = c.horizontal
+    dens = np.asarray(a['dens'], dtype=np.float64); omega = float(a['omega']); rad = float(g.radius)
+    refp = np.asarray([1.0, 0.5, 0.75, 0.625, 0.875][:N])
+    specs = sw.ShallowWaterSpecs(dens, rad, omega, 1.0, scales.DEFAULT_SCALE)
+    deg = g.total_wavenumbers - 2
+    oro = dyn.modal_field(rng, g, (), deg, amp=0.5) if a.get('orog') else None
+    mk_eq = lambda o: sw.ShallowWaterEquations(c, specs, None if o is None else _to_jnp(o), refp)
+    eq = mk_eq(oro)
+    st = dyn.sw_state(rng, c, deg, amp=dict(vort=0.5, div=0.25, pot=1.0))
+    vort, dive, pot = (np.asarray(t, dtype=np.float64) for t in (st.vorticity, st.divergence, st.potential))
+    N64 = lambda t: np.asarray(t, dtype=np.float64)
+    rec = []; outs = []
+    orig = sh.Grid.to_modal
+    def rec_to_modal(self, z):
+        rec.append(N64(z)); out = orig(self, z); outs.append(N64(out)); return out
+    with mock.patch.object(sh.Grid, 'to_modal', rec_to_modal):
+        res = eq.explicit_terms(_to_jnp(st))
+    ctx.exact('number of to_modal calls in ShallowWaterEquations.explicit_terms', len(rec), 1)
+    if len(rec) != 1: return
+    bge = rec[0]
+    ctx.exact('shape of the nodal array handed to to_modal (b[0], b[1], g[0], g[1], e) x layers x nodes', list(bge.shape), [5, N, I, J])
+    if list(bge.shape) != [5, N, I, J]: return
+    # (1) small pieces: density ratios, sec2_lat, Coriolis parameter
+    ctx.corr('get_density_ratios vs model', N64(eq.density_ratios), ctx.model.call(21, [N], [dens]), scale=float(np.max(dens) / np.min(dens)))
+    sinlat = N64(gc.nodal_axes[1])[:J]
+    sec2 = N64(gc.sec2_lat)[:J]; cor = N64(eq.coriolis_parameter)
+    ctx.corr('sec2_lat and coriolis_parameter rows vs model (from sin(lat))', np.concatenate([sec2, cor[0, :J]]),
+             ctx.model.call(22, [J], [[omega], sinlat]), scale=float(max(sec2.max(), 2 * abs(omega))))
+    ctx.oracle('coriolis_parameter does not depend on longitude', bool(np.all(cor == cor[:1, :])))
+    # (2) the nodal algebra on the implementation's own nodal inputs
+    nu = N64(gc.to_nodal(np.stack([N64(t) for t in sh.get_cos_lat_vector(vort, dive, gc)])))
+    nz = N64(gc.to_nodal(gc.clip_wavenumbers(vort))); nph = N64(gc.to_nodal(gc.clip_wavenumbers(pot)))
+    P = I * J
+    s2 = np.broadcast_to(sec2[None, :], (I, J)).reshape(P); fc = cor.reshape(P)
+    umax = float(max(np.abs(nu).max(), 1e-30)); tv = float(np.abs(nz).max() + np.abs(fc).max())
+    sc_nodal = umax * max(tv, float(np.abs(nph).max()), umax) * float(s2.max())
+    mo = ctx.model.call(20, [N, P], [nu[0].reshape(N, P).ravel(), nu[1].reshape(N, P).ravel(), nz.reshape(N, P).ravel(),
+                                     nph.reshape(N, P).ravel(), s2, fc])
+    ctx.corr('nodal_b, nodal_g, nodal_e (argument of to_modal) vs the nodal column model on the nodal inputs', bge.reshape(5, N, P), mo, scale=sc_nodal)
+    # (3) the same arrays and the whole output from the MODAL state through the model's own transforms / operators
+    f, p, w = _basis_tables(g)
+    wa, wb = (N64(t) for t in g._derivative_recurrence_weights)
+    ints = [int(fast), R, L, I, J, N, int(oro is not None)]
+    arrs = [f.ravel(), p.ravel(), w, [rad, omega], wa.ravel(), wb.ravel(), dens, sinlat,
+            (oro if oro is not None else np.zeros((R, L))).ravel(), vort.ravel(), dive.ravel(), pot.ravel(), sec2]
+    mo = ctx.model.call(25, ints, arrs)
+    ctx.corr('nodal_b, nodal_g, nodal_e vs the model evaluated from the modal state (get_cos_lat_vector, clip, to_nodal, nodal algebra)',
+             np.transpose(bge, (1, 0, 2, 3)), mo, scale=sc_nodal)
+    out = np.stack([N64(res.vorticity), N64(res.divergence), N64(res.potential)])
+    bm = float(np.abs(outs[0]).max())
+    pmax = float(np.abs(pot).max() * N + (np.abs(oro).max() if oro is not None else 0.0))
+    sc_out = bm * (L + 3) / rad + L * (L + 1) / rad ** 2 * (pmax + bm)
+    mo = ctx.model.call(24, ints, arrs)
+    ctx.corr('ShallowWaterEquations.explicit_terms (vorticity, divergence, potential tendencies, all layers) vs the assembled model',
+             out, mo, scale=sc_out)
+    ctx.oracle('explicit tendencies not identically zero (non-trivial case)', bool(np.abs(out).max() > 1e-3 * sc_out), {'max': float(np.abs(out).max())})
+    # (4) the property on this configuration: explicit_terms commutes with the mirror and with grid-step rotations
+    base = dyn.tree_to_np(res)
+    for T in (Sym(g, 0, True), Sym(g, int(rng.integers(1, I)), False), Sym(g, int(rng.integers(1, I)), True)):
+        rt = dyn.tree_to_np(mk_eq(None if oro is None else T.modal(oro)).explicit_terms(_to_jnp(T.state(st))))
+        _close(ctx, f"sw: explicit_terms commutes with T ({'mirror' if T.mirror else 'rotation by grid steps'}; orography transformed too)",
+               rt, T.state(base))
+        ctx.count('sym:' + ('mirror' if T.mirror else 'rot'))
+
+
+RUNNERS = {'sw_model': r_sw_model, 'radius': r_radius, 'diag': r_diag, 'tables': r_tables, 'actions': r_actions, 'sht': r_sht, 'ops': r_ops, 'dynamics': r_dynamics}
